@@ -2,6 +2,22 @@
 manifest texts)."""
 
 PROPS = {
+    "C01": {
+        "quick_runs": 600, "quick_budget": 60, "thorough_budget": 900, "batch": 20,
+        "dense": r"^(window/tumbling_window|window/watermark|stream/processor_data)\.go$", "dense_share": 0.3,
+        "needs_fault": False,
+        "probes": ["late_row", "late_row_kept", "on_time_row_before_first_window", "three_or_more_windows"],
+        "technique": "seeded schedule search over ingest / watermark / trigger / consumer goroutines on a fake clock; tumbling assigner + watermark ledger as reference model",
+        "level_text": "Seeded search over window sizes (1ms-1h, ms and s units), MAXOUTOFORDERNESS (0, <size, =size, >size), key tuples, timestamp sequences (in order, jittered within tolerance, duplicates, boundary and boundary-1, on-time rows earlier than the first arrival's window, long gaps, late rows) and interleavings / starvation / stalls of the ingest, watermark-ticker, trigger and consumer goroutines; processing-time mode on the fake clock with stalls that lose ticks. Every delivered result is checked against the reference assigner (interval, group, exactly-once, aggregates, window_id) and every on-time row must be delivered once its window's end is behind the final watermark.",
+    },
+    "C08": {
+        "quick_runs": 600, "quick_budget": 60, "thorough_budget": 900, "batch": 20,
+        "dense": r"^(window/sliding_window|window/watermark|stream/processor_data)\.go$", "dense_share": 0.3,
+        "needs_fault": False,
+        "probes": ["late_row", "on_time_row_before_first_window", "three_or_more_windows"],
+        "technique": "seeded schedule search over ingest / watermark / trigger / consumer goroutines on a fake clock; sliding assigner + watermark ledger as reference model",
+        "level_text": "As C01 with SlidingWindow(size, slide): slide dividing size or not, slide = size, slide > size (gaps), size = k*slide up to 6. Every delivered interval must be slide-aligned, size long, not earlier than the slide-aligned start of the earliest accepted event, delivered once and in increasing order, contain every on-time row it covers and nothing else; every covering interval behind the final watermark must be delivered (premature eviction shows as a missing row).",
+    },
     "C09": {
         "quick_runs": 500, "quick_budget": 60, "thorough_budget": 900, "batch": 20,
         "dense": r"^(window/counting_window|stream/processor_data|stream/handler_result)\.go$", "dense_share": 0.3,
